@@ -32,6 +32,14 @@ P = {
          "TLA+ Adt.tla: TLC enumerates all legal evolution histories and checks mechanism (header/chunks/regions) = documented outcome; each history is rendered as derive inputs (one Rust type per version) and every (writer, reader, value, embedding) case replayed",
          "every legal history up to 2 steps (quick) / 3 steps (thorough) from every initial record of 1-2 fields, all version pairs, all values, four embeddings (top level, in a tuple, in a chunk, in a vector in a chunk); expected outcome computed by the specification's Expected operator written from the documentation; vacuity guards: dropping the legality rule or the DESIGN-9 exclusion makes TLC fail.",
          "field types limited to u8/Option<u8> (plus String and a nested record in the rich configuration); histories bounded; gen_decl.py trusted to render declarations"),
+ "C05": (True, "fault_enumeration", "6 C05",
+         "TLA+ reference decoder evaluated by TLC on every enumerated hostile input (DecTotal / TamperTotal on Hostile.tla); each input decoded by the library under panic, hang, time and heap monitors in debug (overflow checks) and release builds",
+         "all strings over an 8-symbol tag/length alphabet up to length 3 (quick) / 4 (thorough) x 77 target types; every tamper operator (set to each alphabet value, delete, duplicate, insert, swap) at every position of every valid encoding of the depth-2 universe, of derived / evolved / nested / recursive records and of their in-chunk embeddings; all 256^2 strings per type (totality only); witnesses of the two known findings.",
+         "budgets are monitors, not model properties; D14 / D15 are listed known findings (known_findings.json)"),
+ "C06": (True, "fault_enumeration", "6 C06",
+         "strict TLA+ reference decoder (DESIGN 4.5 leniencies only) gives the verdict for every TLC-enumerated tampered / raw input; replay: implementation Ok(v) must imply reference Ok(v) with the same bytes consumed",
+         "same hostile universe as C05 with emphasis on framing (chunk sizes, counts, lengths, tags, position and version bytes rewritten at every position in every embedding); the implication is evaluated per input against the emitted reference verdict.",
+         "the reference decoder is the specification; inputs it leaves Unspecified (non-canonical decimals, unknown time-zone names, leap-second timestamps) are checked for totality only"),
  "C07": (True, "model_checking", "6 C07",
          "TLC invariant SelfDelimiting on the spec; replay of encoding++suffix through a DeserializationContext counting bytes left",
          "every enumerated encoding followed by each suffix of a suffix set decodes to the same value and leaves exactly the suffix; checked on the spec by TLC and on the code by replay.",
